@@ -24,10 +24,76 @@ Lemma gen_suffixes_deployed :
   list_eqb String.eqb gen_rejected_suffixes deployed_suffixes = true.
 Proof. vm_compute. reflexivity. Qed.
 
-(** Server.dial is the statement sequence [decide] models. *)
+(** Server.dial: in the emitted statements the lookup is followed at once by
+    a guard that fires whenever the lookup returned an error - whatever the
+    first result is - and returns a non-nil error.  This is the premise of
+    [lookup_error_always_refuses]. *)
+Lemma gen_dial_lookup_err_guarded : lookup_err_guarded gen_dial_steps = true.
+Proof. vm_compute. reflexivity. Qed.
+
+(** Server.dial is the statement sequence [decide] is the closed form of. *)
 Lemma gen_dial_steps_deployed :
   list_eqb dial_step_eqb gen_dial_steps deployed_dial_steps = true.
 Proof. vm_compute. reflexivity. Qed.
+
+Lemma gen_dial_steps_eq : gen_dial_steps = deployed_dial_steps.
+Proof. reflexivity. Qed.
+
+(** The emitted statements of isRejectedDomain and Server.dial, interpreted,
+    are the closed form: every theorem about [decide] is a theorem about the
+    code as emitted. *)
+Lemma gen_run_host_decide is_ip cfg sni :
+  run_host is_ip gen_rejected_steps gen_dial_steps cfg sni
+  = decide is_ip gen_rejected_suffixes cfg sni.
+Proof.
+  rewrite gen_rejected_steps_eq, gen_dial_steps_eq, gen_suffixes_eq.
+  apply run_host_deployed.
+Qed.
+
+(** hostConn is, statement for statement, the code [run_front] was proved
+    about. *)
+Lemma gen_host_steps_deployed :
+  list_eqb host_step_eqb gen_host_steps deployed_host_steps = true.
+Proof. vm_compute. reflexivity. Qed.
+
+Lemma gen_host_steps_eq : gen_host_steps = deployed_host_steps.
+Proof. reflexivity. Qed.
+
+Lemma gen_run_front is_ip cfg sniff dial_ok :
+  run_front is_ip gen_rejected_steps gen_dial_steps cfg sniff dial_ok gen_host_steps hs0
+  = FOut (front_spec is_ip gen_rejected_suffixes cfg sniff dial_ok).
+Proof.
+  rewrite gen_rejected_steps_eq, gen_dial_steps_eq, gen_suffixes_eq, gen_host_steps_eq.
+  apply run_front_deployed.
+Qed.
+
+(** Every return of the emitted hostConn: the front connection is closed; it
+    is joined to a destination only for a sniffed, not rejected name whose
+    route selects a destination and whose dial succeeds; when the hello cannot
+    be sniffed or the name is rejected the dialer is not called at all. *)
+Lemma gen_front_outcomes is_ip cfg sniff dial_ok :
+  exists o,
+    run_front is_ip gen_rejected_steps gen_dial_steps cfg sniff dial_ok gen_host_steps hs0 = FOut o /\
+    fo_front_closed o = true /\
+    (fo_joined o = true <->
+       exists name, sniff = Some name /\
+                    served (decide is_ip gen_rejected_suffixes cfg name) = true /\ dial_ok = true) /\
+    ((sniff = None \/ exists name, sniff = Some name /\ is_rejected is_ip gen_rejected_suffixes name = true) ->
+       fo_dial o = None /\ fo_joined o = false) /\
+    fo_remote_closed o = fo_joined o.
+Proof.
+  eexists. split; [apply gen_run_front|]. apply front_spec_props.
+Qed.
+
+(** A name for which the lookup returns an error - alone, or together with a
+    destination - is refused by the emitted Server.dial. *)
+Lemma gen_lookup_error_always_refuses cfg sni :
+  has_lookup cfg = true ->
+  lk_err (lookup cfg sni) = true ->
+  refusal (run_dial cfg sni gen_dial_steps st0) = true /\
+  served (run_dial cfg sni gen_dial_steps st0) = false /\
+  endpoint_dials (run_dial cfg sni gen_dial_steps st0) = [].
+Proof. exact (lookup_error_always_refuses gen_dial_steps cfg sni gen_dial_lookup_err_guarded). Qed.
 
 (** hostConn: same calls in the same order; the rejection test comes before
     the one and only dial. *)
